@@ -659,14 +659,26 @@ Lemma scope_order st g s ti c ctx :
   = apply_to_container st g c ctx ++ apply_to_container st s c ctx ++ apply_to_container st ti c ctx.
 Proof. reflexivity. Qed.
 
-(* generation applies filtered hooks for every parameter container *)
-Lemma generation_hooks_partial scopes closures ops g s t c o k f :
-  is_case_target c = false ->
+(* the case level goes through the same filter check as the parameter containers *)
+Lemma case_hooks_eq st g s t o : as_strategy_case_hooks st g s t o = apply_to_all st g s t TCase (Some o).
+Proof. reflexivity. Qed.
+
+Lemma case_hooks_respect_filters scopes closures ops g s t o k f :
   let st := fst (run scopes closures ops) in
-  In (k, f) (generation_hooks st g s t c (Some o)) <->
+  In (k, f) (as_strategy_case_hooks st g s t o) <->
+  exists di, in_scope g s t di /\ In f (all_by_name st di (NGen k TCase)) /\
+             match own_chain (spec_run closures ops) f with Some fs => fset_match fs o = true | None => True end.
+Proof. intros st. subst st. rewrite case_hooks_eq. apply all_scopes_applied. Qed.
+
+(* data generation applies exactly the hooks whose own filters select the operation, for all six targets *)
+Lemma generation_hooks_full scopes closures ops g s t c o k f :
+  let st := fst (run scopes closures ops) in
+  In (k, f) (generation_hooks st g s t c o) <->
   exists di, in_scope g s t di /\ In f (all_by_name st di (NGen k c)) /\
              match own_chain (spec_run closures ops) f with Some fs => fset_match fs o = true | None => True end.
-Proof. intros Hc st. unfold generation_hooks. rewrite Hc. apply all_scopes_applied. Qed.
+Proof.
+  intros st. unfold generation_hooks. destruct c; cbn [is_case_target]; apply all_scopes_applied.
+Qed.
 
 (* dispatch *)
 Lemma in_dispatch st di n ctx f :
@@ -859,12 +871,18 @@ Lemma prefix_named_form_refuted :
   filter_of (fst (run [Schema] [0] ops)) 0%N = Some fs_get.
 Proof. vm_compute. split; reflexivity. Qed.
 
-(* F2: case-level hooks are applied whatever their filters say *)
-Lemma case_hooks_respect_filters_refuted :
+(* F2 (fixed by 4324b099): before, case-level hooks were applied whatever their filters said *)
+Lemma case_hooks_prefix_behaviour_refuted :
   let ops := [OFilter 0 true (call_method sGET); ORegFn 0 f_map_case] in
   own_chain (spec_run [0; 1] ops) 6%N = Some fs_get /\ fset_match fs_get op_post = false /\
-  In (KMap, 6%N) (generation_hooks (fst (run [Global; Schema] [0; 1] ops)) 0 1 None TCase (Some op_post)).
+  In (KMap, 6%N) (generation_hooks_prefix (fst (run [Global; Schema] [0; 1] ops)) 0 1 None TCase op_post).
 Proof. vm_compute. repeat split; auto. Qed.
+
+(* the same history on the code as it is: the GET-only case hook is applied for GET and not for POST *)
+Example case_hooks_now :
+  let st := fst (run [Global; Schema] [0; 1] [OFilter 0 true (call_method sGET); ORegFn 0 f_map_case]) in
+  generation_hooks st 0 1 None TCase op_post = [] /\ generation_hooks st 0 1 None TCase op_get = [(KMap, 6%N)].
+Proof. vm_compute. split; reflexivity. Qed.
 
 (* F3: an unfiltered registration right after a decorator expression with filters is refused *)
 Lemma unfiltered_accepted_refuted :
